@@ -39,9 +39,15 @@ CLAIMS = {
     "C16": ("spec/Config.tla, MC_C16.tla",
             "TLC checks C16_Precedence, C16_WrongTypeRejected, C16_ExcludesUnion on the source-stacking machine (Configuration, set_file, set_args, get, all_contents) for every option x every subset of sources, and pairs of options; every behaviour is replayed through the real cminx.main with synthesised YAML sources and the Settings object handed to cminx.document compared field by field, incl. exclude-filter concatenation, output-directory resolution and rejection of wrong-typed values.",
             "wrong types only in the effective source; StrSeq leniency and logging section not judged", "4 C16"),
+    "C17": ("spec/Runs.tla, MC_Runs.tla",
+            "TLC checks on the main()-loop machine (shared Settings object, deep copy per input, default prefix written into the copy) that page content depends on input and settings only for every run descriptor x command line of the menu; a seeded sample of the behaviours is executed for real, one OS process each (cwd, spelling, location, PYTHONHASHSEED, listing order through os.walk, repeat, companion inputs before/after) and every generated file compared byte for byte with the canonical run of each input alone.",
+            "colliding output paths (two directory inputs) out of scope; sample sizes in evidence", "4 C17"),
     "C18": ("spec/Walk.tla (effect log), MC_Walk.tla",
             "TLC checks the effect invariants of the walk specification (C18_NoWritesWithoutOut, C18_NoPrintsWithOut, C18_WritesUnderOut, C18_SortedPerDirectory); each terminal behaviour is run through the real cminx.main with and without -o in fresh sandboxes with complete before/after snapshots (paths and bytes, HOME included) and captured stdout; created/changed/deleted paths are compared with the output directory and stdout with the concatenation of the written pages.",
             "diagnostics-free inputs; output styles abs/relative/parent/inside-top/inside-sub; four settings variants", "4 C18"),
+    "C19": ("spec/Runs.tla (GenArgv), MC_Runs.tla, cmake -P + recording shim",
+            "TLC checks C19_Argv for every input kind x extra-argument list; each case runs the real cmake/cminx.cmake under cmake -P with CMINX_EXECUTABLE bound to a shim that logs argv and runs the working-tree CMinx; compared: logged argv vs. the specification's, cmake failing fatally iff CMinx fails, output tree vs. the direct command-line run.",
+            "arguments with ';' excluded; script mode stands for configure", "4 C19"),
     "C20": ("spec/RstWriter.tla, MC_C20.tla",
             "TLC checks HeadingFramed, IndentExact, OptionsFirst, OrderPreserved, ClearKeepsHeading and the action property ToTextIsPure on the API-history machine for all histories up to the bound; every history ending in to_text is replayed on the real RSTWriter, each serialisation compared character for character with the specification's Lines(), serialised twice and the document compared before/after.",
             "single-line field values; section/doctest/simple_table not exercised; bounds as in evidence", "4 C20"),
